@@ -12,25 +12,25 @@
 (***************************************************************************)
 EXTENDS QueueCore, FiniteSets, Json
 
-CONSTANTS Configs, Depth, MaxBlocked
+CONSTANTS Configs, Depth, MaxBlocked, MaxBurst
 
 CfgStep == {NoLimit, Quota(1, 0, 0), Quota(2, 0, 0), Quota(2, 1, 0), Quota(3, 2, 1), Quota(3, 1, 0)}
 
-VARIABLES q, blocked, cancelled, held, hist
-vars == <<q, blocked, cancelled, held, hist>>
+VARIABLES q, blocked, cancelled, held, hist, blen
+vars == <<q, blocked, cancelled, held, hist, blen>>
 
 \* item names and ids do not influence enabling: abstract them away for edge coverage
-view == <<Len(q.items), q.closed, q.tr, {<<p.op, p.id \in cancelled>> : p \in blocked}, Cardinality(blocked), held # 0>>
+view == <<Len(q.items), q.closed, q.tr, {<<p.op, p.id \in cancelled>> : p \in blocked}, Cardinality(blocked), held # 0, blen>>
 
 Init == \E tr \in {c \in Configs : c.kind # "quota" \/ c.soft <= c.hard} :
-          /\ q = QNew(tr) /\ blocked = {} /\ cancelled = {} /\ held = 0
-          /\ hist = <<[op |-> "new", arg |-> tr.kind, target |-> 0, window |-> FALSE,
+          /\ q = QNew(tr) /\ blocked = {} /\ cancelled = {} /\ held = 0 /\ blen = 0
+          /\ hist = <<[op |-> "new", arg |-> tr.kind, target |-> 0, window |-> FALSE, burst |-> FALSE,
                        hard |-> tr.hard, soft |-> tr.soft, credit |-> tr.credit \div Scale]>>
 
 Id == Len(hist) + 1
 Val == "v" \o ToString(Id)
-Sched(op, arg, target, window) ==
-  hist' = Append(hist, [op |-> op, arg |-> arg, target |-> target, window |-> window,
+Sched(op, arg, target, window, burst) ==
+  hist' = Append(hist, [op |-> op, arg |-> arg, target |-> target, window |-> window, burst |-> burst,
                         hard |-> 0, soft |-> 0, credit |-> 0])
 
 IsCancelled(p) == p.id \in cancelled
@@ -38,10 +38,18 @@ En(p) == Enabled(q, p.op, p.arg, IsCancelled(p))
 Settled == \A p \in blocked : ~En(p)
 
 \* a non-blocking operation: applied at once
-NB(op) == /\ Settled /\ held = 0
+\* A BURST step (b = TRUE) is issued by the driver right after the previous step, WITHOUT waiting for
+\* quiescence: blocked operations that the previous steps enabled may or may not have run in between
+\* (Resolve is independent), so "two Adds before any waiter runs", "Add then Cancel before the woken
+\* waiter re-acquires the lock", "Remove then Close before the parked producer runs" are all schedules.
+\* The harness runs the steps of a burst synchronously from one goroutine (with GOMAXPROCS=1 the whole
+\* burst is atomic with respect to the parked goroutines; with more procs the other orders are sampled).
+CanBurst == blen < MaxBurst /\ Len(hist) > 1 /\ held = 0
+NB(op, b) == /\ (b \/ Settled) /\ (b => CanBurst) /\ held = 0
           /\ LET arg == IF op \in {"add", "dsend"} THEN Val ELSE "" IN
              /\ \E o \in Apply(q, op, arg, FALSE) : q' = o.q
-             /\ Sched(op, arg, 0, FALSE)
+             /\ Sched(op, arg, 0, FALSE, b)
+          /\ blen' = (IF b THEN blen + 1 ELSE 0)
           /\ UNCHANGED <<blocked, cancelled, held>>
 
 \* a blocking operation is started; it joins `blocked` and may be resolved at once
@@ -50,26 +58,27 @@ StartB(op, window) ==
   /\ LET arg == IF op = "badd" THEN Val ELSE "" IN
      /\ window => ~Enabled(q, op, arg, FALSE)    \* it reaches the yield point only if it is about to park
      /\ blocked' = blocked \cup {[id |-> Id, op |-> op, arg |-> arg]}
-     /\ Sched(op, arg, 0, window)
-  /\ held' = IF window THEN Id ELSE 0
+     /\ Sched(op, arg, 0, window, FALSE)
+  /\ held' = (IF window THEN Id ELSE 0) /\ blen' = 0
   /\ UNCHANGED <<q, cancelled>>
 
 \* cancel the context of a blocked operation (in the window: of the held one)
-Cancel(p) == /\ Settled /\ p \in blocked /\ ~IsCancelled(p)
-             /\ held # 0 => p.id = held
-             /\ cancelled' = cancelled \cup {p.id} /\ held' = 0
-             /\ Sched("cancel", "", p.id, FALSE)
-             /\ UNCHANGED <<q, blocked>>
+Cancel(p, b) == /\ (b \/ Settled) /\ (b => CanBurst) /\ p \in blocked /\ ~IsCancelled(p)
+                /\ held # 0 => p.id = held
+                /\ cancelled' = cancelled \cup {p.id} /\ held' = 0
+                /\ Sched("cancel", "", p.id, FALSE, b)
+                /\ blen' = (IF b THEN blen + 1 ELSE 0)
+                /\ UNCHANGED <<q, blocked>>
 
 \* an enabled blocked operation completes (not a schedule step)
 Resolve(p) == /\ p \in blocked /\ En(p) /\ held = 0
               /\ \E o \in Apply(q, p.op, p.arg, IsCancelled(p)) : q' = o.q
               /\ blocked' = blocked \ {p}
-              /\ UNCHANGED <<cancelled, held, hist>>
+              /\ UNCHANGED <<cancelled, held, hist, blen>>
 
-Driver == \/ \E op \in {"add", "dsend", "remove", "len", "dlen", "close"} : NB(op)
+Driver == \/ \E op \in {"add", "dsend", "remove", "len", "dlen", "close"} , b \in BOOLEAN : NB(op, b)
           \/ \E op \in {"wait", "drecv", "badd"}, w \in BOOLEAN : StartB(op, w)
-          \/ \E p \in blocked : Cancel(p)
+          \/ \E p \in blocked, b \in BOOLEAN : Cancel(p, b)
 
 Next == \/ Len(hist) < Depth /\ Driver
         \/ \E p \in blocked : Resolve(p)
